@@ -35,7 +35,7 @@ func init() {
 			}
 			return []runner.Phase{
 				{Name: "box", Variant: "plain", Cases: c10boxCount(), Run: c10box, Required: []string{"nts_cases", "simple_cases", "picks"}},
-				{Name: "random", Variant: "plain", Cases: n, Run: c10random, Required: []string{"nts_cases", "simple_cases", "vnode_rings", "unknown_dc_keyspaces", "lookups", "picks", "hashed_murmur_rings", "policy_host_removed", "policy_keyspace_change_overlaps_ring_change"}},
+				{Name: "random", Variant: "plain", Cases: n, Run: c10random, Required: []string{"nts_cases", "simple_cases", "vnode_rings", "unknown_dc_keyspaces", "lookups", "picks", "hashed_murmur_rings", "policy_host_removed", "policy_keyspace_change_overlaps_ring_change", "second_keyspaces"}},
 			}
 		},
 	})
@@ -399,6 +399,101 @@ func c10check(c *runner.Ctx, cfg *c10cfg, probes []int64) {
 		}
 		if bad := c10compare(cfg.simple, ids, exp, ring.Owner(i), nodesN, cfg); bad != "" {
 			c.Violation(fmt.Sprintf("C10:%s:pick:%s:%s:%s", class, strings.SplitN(bad, ":", 2)[0], pos, vn), "the hosts the token-aware policy offers first for a routing key are not Cassandra's replicas of its token: "+bad, wit(fmt.Sprintf("routing key %x (token %d): offered first %v, Cassandra %v", key, p, ids, nodeIDs(exp))))
+		}
+	}
+	// a second keyspace in the same policy (learned through a schema event), replicated with the *other* strategy and,
+	// where possible, the same numbers: each keyspace has its own placement
+	cfg2 := *cfg
+	dcs := map[string]bool{}
+	for _, n := range cfg.nodes {
+		dcs[n.dc] = true
+	}
+	if cfg.simple {
+		cfg2.simple, cfg2.dcrf = false, map[string]int{}
+		for dc := range dcs {
+			cfg2.dcrf[dc] = cfg.rf
+		}
+	} else {
+		n := -1
+		for dc := range dcs {
+			if n == -1 {
+				n = cfg.dcrf[dc]
+			} else if cfg.dcrf[dc] != n {
+				n = -2
+			}
+		}
+		if n < 0 {
+			n = 1 + len(cfg.nodes)%3
+		}
+		cfg2.simple, cfg2.rf, cfg2.dcrf = true, n, nil
+	}
+	ks2 := &gocql.KeyspaceMetadata{Name: "ks2", StrategyOptions: map[string]interface{}{}}
+	if cfg2.simple {
+		ks2.StrategyClass = "org.apache.cassandra.locator.SimpleStrategy"
+		ks2.StrategyOptions["replication_factor"] = fmt.Sprint(cfg2.rf)
+	} else {
+		ks2.StrategyClass = "org.apache.cassandra.locator.NetworkTopologyStrategy"
+		ks2.StrategyOptions["class"] = ks2.StrategyClass
+		for dc, rf := range cfg2.dcrf {
+			ks2.StrategyOptions[dc] = fmt.Sprint(rf)
+		}
+	}
+	gocql.VerifInitTokenAware(pol, "ks", func(name string) (*gocql.KeyspaceMetadata, error) {
+		if name == "ks2" {
+			return ks2, nil
+		}
+		return ks, nil
+	})
+	panicked2 := false
+	func() {
+		defer func() {
+			if r := recover(); r != nil {
+				panicked2 = true
+				c.Violation(fmt.Sprintf("C10:%s:second-keyspace:panic", class), fmt.Sprintf("learning a second keyspace panicked: %v", r), wit(cfg2.String()))
+			}
+		}()
+		pol.KeyspaceChanged(gocql.KeyspaceUpdateEvent{Keyspace: "ks2"})
+	}()
+	if panicked2 {
+		return
+	}
+	c.Add("second_keyspaces", 1)
+	for _, p := range probes {
+		i := ring.Index(big.NewInt(p))
+		var exp2 []*cqlref.Node
+		if cfg2.simple {
+			exp2 = ring.SimpleReplicas(i, cfg2.rf)
+		} else {
+			exp2 = ring.NTSReplicas3x(i, cfg2.dcrf)
+			if b := ring.NTSReplicas2x(i, cfg2.dcrf); !sameSet(exp2, b) || (len(exp2) > 0 && exp2[0] != b[0]) {
+				continue
+			}
+		}
+		for _, kn := range []string{"ks2", "ks"} {
+			hs, err := gocql.VerifTokenAwareReplicas(pol, kn, c10tokStr(cfg.partitioner, p))
+			if err != nil {
+				c.Broken(err.Error())
+				return
+			}
+			var ids []string
+			for _, h := range hs {
+				ids = append(ids, h.HostID())
+			}
+			want, wcfg := exp2, &cfg2
+			if kn == "ks" {
+				e1, ok1 := expected(i)
+				if !ok1 {
+					continue
+				}
+				want, wcfg = e1, cfg
+			}
+			if len(want) == 0 && len(ids) == 0 {
+				continue
+			}
+			if bad := c10compare(wcfg.simple, ids, want, ring.Owner(i), nodesN, wcfg); bad != "" {
+				c.Violation(fmt.Sprintf("C10:%s:two-keyspaces:%s:%s", class, strings.SplitN(bad, ":", 2)[0], vn), fmt.Sprintf("with two keyspaces in the policy, the replicas of keyspace %s differ from Cassandra's placement: %s", kn, bad), wit(fmt.Sprintf("keyspace %s (%s), lookup %d: driver %v, Cassandra %v", kn, wcfg.String(), p, ids, nodeIDs(want))))
+				return
+			}
 		}
 	}
 }
